@@ -84,6 +84,9 @@ fn f_map_filter(i: &I) -> O {
     }
     vec![out]
 }
+fn f_async_scan(i: &I) -> O {
+    vec![vints(running(&ints(&i[0])))]
+}
 fn f_enumerate(i: &I) -> O {
     vec![i[0].iter().enumerate().map(|(n, v)| vt2(vi(n as i64), v.clone())).collect()]
 }
@@ -236,6 +239,7 @@ macro_rules! e {
 use OutKind::*;
 use Shape::*;
 e!(S_MAP_FILTER, s_map_filter, x_s_map_filter, &[Int], &[Seq], f_map_filter);
+e!(S_ASYNC_SCAN, s_async_scan, x_s_async_scan, &[Int], &[Seq], f_async_scan);
 e!(S_ENUMERATE, s_enumerate, x_s_enumerate, &[Int], &[Seq], f_enumerate);
 e!(S_SCAN, s_scan, x_s_scan, &[Int], &[Seq], f_scan);
 e!(S_UNIQUE, s_unique, x_s_unique, &[Int], &[Seq], f_unique);
@@ -274,6 +278,7 @@ e!(S_KEYED_ENUM_LIMIT, s_keyed_enum_limit, x_s_keyed_enum_limit, &[Kv], &[SnapBa
 pub const ENTRIES: &[Entry] = &[
     S_MAP_FILTER,
     S_ENUMERATE,
+    S_ASYNC_SCAN,
     S_SCAN,
     S_UNIQUE,
     S_LIMIT,
@@ -408,11 +413,18 @@ pub fn run(entry: &Entry, sim: &mut Sim) -> Outcome {
     }
     sim.event(0x2800 + items as u64, || format!("entry {} inputs {:?}", entry.name, inputs));
     sim.event(plan_b.steps() as u64, || format!("schedule B releases {:?}", plan_b.rel));
+    if entry.name == "s_async_scan" {
+        // how often every simulated future answers Pending before it completes
+        plan_b.pends = (0..items).map(|_| sim.choose("pend", 0, 2) as u8).collect();
+    }
     let ex_a = (entry.exec)(&plan_a, &mut EagerNet::default());
     let ex_b = (entry.exec)(&plan_b, &mut SimNet { sim, lazy: lazy_net });
     sim.event(crate::hash_vals(&ex_a.outs), || format!("A (canonical) per-step outputs {:?}", ex_a.outs));
     sim.event(crate::hash_vals(&ex_b.outs), || format!("B per-step outputs {:?} (location of each step {:?})", ex_b.outs, ex_b.loc_ticks));
     sim.state(crate::hash_vals(&ex_b.outs));
+    if ex_b.suspensions > 0 {
+        sim.fault("future_suspended_in_tick");
+    }
     if ex_b.max_in_flight >= 2 {
         sim.probe("two_messages_in_flight");
     }
